@@ -47,19 +47,26 @@ func (eval Evaluator) Trace(ctIn *Ciphertext, logN int, opOut *Ciphertext) (err 
 
 	*opOut.MetaData = *ctIn.MetaData
 
-	gap := 1 << (params.LogN() - logN - 1)
+	// The group of rotations X -> X^{5^k} has order N/2 in the standard ring and order N
+	// in the conjugate-invariant ring (where X -> X^{-1} is the identity and is skipped).
+	logRot := params.LogN() - 1
+	if params.RingType() == ring.ConjugateInvariant {
+		logRot = params.LogN()
+	}
 
-	if logN == 0 {
-		gap <<= 1
+	if logN < 0 || logN > logRot {
+		return fmt.Errorf("cannot Trace: logN=%d is not in the range [0, %d]", logN, logRot)
+	}
+
+	gap := 1 << (logRot - logN)
+
+	if logN == 0 && params.RingType() == ring.Standard {
+		gap <<= 1 // accounts for the last step that applies phi(5^{-1})
 	}
 
 	if gap > 1 {
 
 		ringQ := params.RingQ().AtLevel(level)
-
-		if ringQ.Type() == ring.ConjugateInvariant {
-			gap >>= 1 // We skip the last step that applies phi(5^{-1})
-		}
 
 		/* #nosec G115 -- gap cannot be negative */
 		NInv := new(big.Int).SetUint64(uint64(gap))
@@ -85,7 +92,7 @@ func (eval Evaluator) Trace(ctIn *Ciphertext, logN int, opOut *Ciphertext) (err 
 
 		buff.IsNTT = true
 
-		for i := logN; i < params.LogN()-1; i++ {
+		for i := logN; i < logRot; i++ {
 
 			if err = eval.Automorphism(opOut, params.GaloisElement(1<<i), buff); err != nil {
 				return err
@@ -126,20 +133,24 @@ func GaloisElementsForTrace(params ParameterProvider, logN int) (galEls []uint64
 
 	p := params.GetRLWEParameters()
 
+	// See [Evaluator.Trace]: N/2 rotations in the standard ring, N in the conjugate-invariant ring.
+	logRot := p.LogN() - 1
+	if p.RingType() == ring.ConjugateInvariant {
+		logRot = p.LogN()
+	}
+
+	// Sanity check
+	if logN < 0 || logN > logRot {
+		panic(fmt.Errorf("cannot GaloisElementsForTrace: logN=%d is not in the range [0, %d]", logN, logRot))
+	}
+
 	galEls = []uint64{}
-	for i, j := logN, 0; i < p.LogN()-1; i, j = i+1, j+1 {
+	for i := logN; i < logRot; i++ {
 		galEls = append(galEls, p.GaloisElement(1<<i))
 	}
 
-	if logN == 0 {
-		switch p.RingType() {
-		case ring.Standard:
-			galEls = append(galEls, p.GaloisElementOrderTwoOrthogonalSubgroup())
-		case ring.ConjugateInvariant:
-			panic("cannot GaloisElementsForTrace: Galois element GaloisGen^-1 is undefined in ConjugateInvariant Ring")
-		default:
-			panic("cannot GaloisElementsForTrace: invalid ring type")
-		}
+	if logN == 0 && p.RingType() == ring.Standard {
+		galEls = append(galEls, p.GaloisElementOrderTwoOrthogonalSubgroup())
 	}
 
 	return
